@@ -6,6 +6,8 @@ import (
 
 	"pgregory.net/rapid"
 
+	js "github.com/jsightapi/jsight-schema-go-library/notations/jschema"
+
 	"verif/gen"
 	"verif/lib"
 	"verif/ref"
@@ -238,6 +240,123 @@ func TestTypeRuleReference(t *testing.T) {
 		run.Eval(chkRef, true, schema2, typeText)
 		run.Label("ref-cnv:" + cor.Rule)
 		run.Sample(chkRef, c2)
+	})
+}
+
+// One type object added to two root schemas (AddType stores the same compiled type in every
+// root): each root's Check must visit it and judge it against that root's own type registry, as
+// a fresh object would be.
+type SharedCase struct {
+	Root     string `json:"root_text"`
+	TypeText string `json:"shared_type_text"` // @t, one object added to both roots
+	U1       string `json:"u_in_root_1"`      // @u as root 1 defines it
+	U2       string `json:"u_in_root_2"`      // @u as root 2 defines it
+	Rule     string `json:"violated_rule"`
+	Scenario string `json:"scenario"`
+}
+
+const chkShared = "type-object-shared-between-roots"
+
+func init() {
+	run.RegisterReplay(chkShared, func(t run.TB, raw json.RawMessage) {
+		var c SharedCase
+		if err := json.Unmarshal(raw, &c); err != nil {
+			t.Fatalf("bad case: %v", err)
+		}
+		checkShared(t, c)
+	})
+}
+
+func buildRoot(rootText string, tObj *js.Schema, u string) (*js.Schema, lib.Res) {
+	r := js.New("root", rootText)
+	add := lib.Safe(func() error { return r.AddType("@t", tObj) })
+	if u != "" {
+		if a2 := lib.Safe(func() error { return r.AddType("@u", js.New("@u", u)) }); add.OK {
+			add = a2
+		}
+	}
+	return r, add
+}
+
+// checkShared returns the verdicts of root 1 and root 2 (shared @t), after comparing each with
+// the verdict of the same root built from fresh objects only.
+func checkShared(t run.TB, c SharedCase) (lib.Res, lib.Res) {
+	fresh := func(u string) lib.Res {
+		r, add := buildRoot(c.Root, js.New("@t", c.TypeText), u)
+		if !add.OK {
+			return add
+		}
+		return lib.Check(r)
+	}
+	f1, f2 := fresh(c.U1), fresh(c.U2)
+	shared := js.New("@t", c.TypeText)
+	r1, a1 := buildRoot(c.Root, shared, c.U1)
+	s1 := a1
+	if a1.OK {
+		s1 = lib.Check(r1)
+	}
+	r2, a2 := buildRoot(c.Root, shared, c.U2)
+	s2 := a2
+	if a2.OK {
+		s2 = lib.Check(r2)
+	}
+	for _, r := range []lib.Res{f1, f2, s1, s2} {
+		if r.Panic != "" {
+			run.Fail(t, chkShared, c, "panic: %v", r)
+		}
+	}
+	same := func(a, b lib.Res) bool { return a.OK == b.OK && a.Code == b.Code && a.Pos == b.Pos && a.File == b.File }
+	if !same(f1, s1) {
+		run.Fail(t, chkShared, c, "root 1: Check gives %v with fresh objects but %v with the shared type object", f1, s1)
+	}
+	if !same(f2, s2) {
+		run.Fail(t, chkShared, c, "root 2 (type object already checked as part of root 1): Check gives %v, a root built from fresh objects gives %v", s2, f2)
+	}
+	return s1, s2
+}
+
+func TestSharedTypeObject(t *testing.T) {
+	run.SkipIfReplaying(t)
+	defer run.Done(t, chkShared)
+	rapid.Check(t, func(t *rapid.T) {
+		typ, _ := gen.ScalarCase(t, "ty")
+		if typ.Rule("enum") != nil || typ.Rule("const") != nil || typ.IsAny() {
+			return
+		}
+		bad, cor, ok := gen.Corrupt(t, typ, "cor")
+		if !ok || cor.Rule == "type" || bad.Lit != typ.Lit {
+			return
+		}
+		goodText := string(gen.PrintSchema(typ, nil))
+		badText := string(gen.PrintSchema(bad, nil))
+		root := rapid.SampledFrom([]string{"@t", "[@t]", `{"k": @t}`, `{"k": @t, "j": [@t, @t]}`}).Draw(t, "root")
+		var c SharedCase
+		switch rapid.IntRange(0, 1).Draw(t, "scenario") {
+		case 0:
+			// the shared type's own example violates its own rule: both roots must reject it
+			c = SharedCase{Root: root, TypeText: badText, Rule: cor.Rule, Scenario: "shared type with a violating example"}
+			s1, s2 := checkShared(t, c)
+			if s1.OK || s2.OK {
+				run.Fail(t, chkShared, c, "the shared type's example violates its %q rule but Check accepts (root 1: %v, root 2: %v)", cor.Rule, s1, s2)
+			}
+		default:
+			// the shared type refers to @u; root 1 defines @u without rules, root 2 with a rule
+			// that the shared type's example violates
+			plain := &ref.SNode{Kind: ref.SLit, Lit: bad.Lit, Tok: bad.Tok, Str: bad.Str}
+			holder := &ref.SNode{Kind: ref.SLit, Lit: bad.Lit, Tok: bad.Tok, Str: bad.Str, Rules: []ref.SRule{gen.StrRule("type", "@u")}}
+			c = SharedCase{Root: root, TypeText: string(gen.PrintSchema(holder, nil)), U1: string(gen.PrintSchema(plain, nil)), U2: goodText,
+				Rule: cor.Rule, Scenario: "shared type refers to @u, which only root 2 restricts"}
+			s1, s2 := checkShared(t, c)
+			if !s1.OK {
+				run.Label("shared:root1-rejected")
+			}
+			if s2.OK {
+				run.Fail(t, chkShared, c, "in root 2 the shared type's example violates the %q rule of @u but Check accepts", cor.Rule)
+			}
+		}
+		run.Eval(chkShared, true, c.Root, c.TypeText, c.U1, c.U2)
+		run.Label("shared:" + c.Scenario)
+		run.Sample(chkShared, c)
 	})
 }
 
